@@ -27,6 +27,8 @@ pub struct Faults {
     pub timeout_recv_at: Option<usize>,
     /// the n-th read call from now (counted over all reads) hits end-of-stream
     pub eof_read_at: Option<usize>,
+    /// the n-th read call from now times out; whatever has not been read yet stays in the stream (arrives "late")
+    pub timeout_read_at: Option<usize>,
 }
 
 pub struct World {
@@ -159,6 +161,11 @@ impl Read for MemStream {
                 let line = format!("IO {} recv-fail", hex(self.host.as_bytes()));
                 w.lean.log(&line);
                 return Ok(0);
+            }
+            if w.faults.timeout_read_at == Some(idx) {
+                let line = format!("IO {} recv-fail", hex(self.host.as_bytes()));
+                w.lean.log(&line);
+                return Err(io::Error::new(io::ErrorKind::TimedOut, "injected read time-out (mid-reply)"));
             }
             w.faults.read_chunks.pop_front().unwrap_or(usize::MAX).max(1)
         };
